@@ -35,6 +35,17 @@ pub fn gen(seed: u64, tier: Tier) -> ScenarioSpec {
             g.len = 1 + rng.below(1500) as u32;
         }
     }
+    if rng.chance(1, 5) {
+        // declared-but-unknown events are part of a well-formed file; some collide with the markers after the raw element
+        rec.extras.unknown = super::c17::gen_unknown(&mut rng, super::c17::events_hint(&rec), 2);
+        for u in rec.extras.unknown.iter_mut() {
+            u.after.truncate(4);
+            if rng.chance(1, 2) {
+                u.after.push(0);
+                u.after.push(1);
+            }
+        }
+    }
     let mut spec = gen::base_spec(P, "S3", seed, rec);
     spec.compression = *rng.pick(&[Compression::None, Compression::Lz4, Compression::Zstd]);
     spec.opts.compute_hash = rng.chance(1, 4);
